@@ -476,6 +476,48 @@ func neutralTransform(src []byte, filename, kind string) ([]byte, int, error) {
 			}
 			return true
 		})
+	case "errmsg":
+		// reword every error text
+		ast.Inspect(f, func(x ast.Node) bool {
+			call, ok := x.(*ast.CallExpr)
+			if !ok || len(call.Args) == 0 {
+				return true
+			}
+			sel, ok := call.Fun.(*ast.SelectorExpr)
+			if !ok {
+				return true
+			}
+			pk, _ := sel.X.(*ast.Ident)
+			if pk == nil || !(pk.Name == "errors" && sel.Sel.Name == "New" || pk.Name == "fmt" && sel.Sel.Name == "Errorf") {
+				return true
+			}
+			if bl, ok := call.Args[0].(*ast.BasicLit); ok && bl.Kind == token.STRING && strings.HasPrefix(bl.Value, "\"") {
+				bl.Value = "\"simdjson: " + bl.Value[1:]
+				n++
+			}
+			return true
+		})
+	case "nop-stmt":
+		// a statement without effect at the start of every function body and every loop body
+		nop := func() ast.Stmt {
+			return &ast.AssignStmt{Lhs: []ast.Expr{ast.NewIdent("_")}, Tok: token.ASSIGN, Rhs: []ast.Expr{&ast.BasicLit{Kind: token.INT, Value: "0"}}}
+		}
+		ast.Inspect(f, func(x ast.Node) bool {
+			var body *ast.BlockStmt
+			switch v := x.(type) {
+			case *ast.FuncDecl:
+				body = v.Body
+			case *ast.ForStmt:
+				body = v.Body
+			case *ast.RangeStmt:
+				body = v.Body
+			}
+			if body != nil {
+				body.List = append([]ast.Stmt{nop()}, body.List...)
+				n++
+			}
+			return true
+		})
 	case "flip-else":
 		ast.Inspect(f, func(x ast.Node) bool {
 			ifs, ok := x.(*ast.IfStmt)
@@ -525,7 +567,7 @@ func neutralTransform(src []byte, filename, kind string) ([]byte, int, error) {
 // a false alarm of the checker, since the transformation preserves behaviour).
 func runNeutral(repo, verif string, args []string) {
 	if len(args) < 2 {
-		fmt.Fprintln(os.Stderr, "usage: simdvet neutral <swap-eq|flip-rel|incdec|assign-op|var-decl|flip-else|reorder> <file.go>...")
+		fmt.Fprintln(os.Stderr, "usage: simdvet neutral <swap-eq|flip-rel|incdec|assign-op|var-decl|flip-else|reorder|errmsg|nop-stmt> <file.go>...")
 		os.Exit(2)
 	}
 	kind := args[0]
